@@ -194,25 +194,11 @@ quick: yes
 funcs: spifconf_shell_expand
 */
 /*@unit
-name: reads_plain
-define: U_READS, VB_NOGROW, A_SPACE, A_TILDE, A_BRACE, A_PAREN, A_SQ, A_DQ, NMAX=8, BUFF=32, VERIF_EXACT_LIBC, VERIF_OWN_STRLEN, VERIF_OWN_STRCMP, VERIF_OWN_STRDUP, VERIF_OWN_STRCHR
+name: reads_ok
+define: U_READS, VB_NOGROW, A_SPACE, A_TILDE, A_BS, A_BRACE, A_PAREN, A_SQ, A_DQ, D_FLAGS=0u, NMAX=6, BUFF=32, VERIF_EXACT_LIBC, VERIF_OWN_STRLEN, VERIF_OWN_STRCMP, VERIF_OWN_STRDUP, VERIF_OWN_STRCHR
 src: conf.c
 tier: B
-bound: input <= 8 characters over {a, space, ~, {, }, (, ), ', "} in a block of exactly strlen+1 bytes; line-buffer limit CONFIG_BUFF scaled to 32 bytes (stated re-binding)
-unwind: 10
-flags: --unwindset strlen.0:12,strcpy.0:12,vb_a.0:12,spiftool_safe_strncpy.0:12,mk_str.0:6,strncasecmp.0:3,spifconf_shell_expand:0,spifconf_shell_expand.7:2,spifconf_shell_expand.10:1,spifconf_shell_expand.15:1,spifconf_shell_expand.21:1,spifconf_shell_expand.22:1,spifconf_shell_expand.23:1,spifconf_shell_expand.28:9
-objbits: 10
-backend: sat
-timeout: 600
-quick: yes
-funcs: spifconf_shell_expand
-*/
-/*@unit
-name: reads_backslash
-define: U_READS, VB_NOGROW, A_BS, A_SQ, NMAX=6, BUFF=32, VERIF_EXACT_LIBC, VERIF_OWN_STRLEN, VERIF_OWN_STRCMP, VERIF_OWN_STRDUP, VERIF_OWN_STRCHR
-src: conf.c
-tier: B
-bound: input <= 6 characters over {a, backslash, '} in a block of exactly strlen+1 bytes; line-buffer limit CONFIG_BUFF scaled to 32 bytes (stated re-binding)
+bound: input <= 6 characters over {a, space, ~, backslash, {, }, (, ), ', "} not ending in a backslash, in a block of exactly strlen+1 bytes; line-buffer limit CONFIG_BUFF scaled to 32 bytes (stated re-binding)
 unwind: 8
 flags: --unwindset strlen.0:10,strcpy.0:10,vb_a.0:10,spiftool_safe_strncpy.0:12,mk_str.0:6,strncasecmp.0:3,spifconf_shell_expand:0,spifconf_shell_expand.7:2,spifconf_shell_expand.10:1,spifconf_shell_expand.15:1,spifconf_shell_expand.21:1,spifconf_shell_expand.22:1,spifconf_shell_expand.23:1,spifconf_shell_expand.28:7
 objbits: 10
@@ -222,11 +208,25 @@ quick: yes
 funcs: spifconf_shell_expand
 */
 /*@unit
-name: reads_dollar
-define: U_READS, VB_NOGROW, A_DOLLAR, A_BRACE, A_PAREN, NMAX=5, BUFF=32, VERIF_EXACT_LIBC, VERIF_OWN_STRLEN, VERIF_OWN_STRCMP, VERIF_OWN_STRDUP, VERIF_OWN_STRCHR
+name: reads_backslash
+define: U_READS, VB_NOGROW, A_BS, A_SQ, D_FLAGS=RF_TRAIL_BS, D_NEED=RF_TRAIL_BS, NMAX=6, BUFF=32, VERIF_EXACT_LIBC, VERIF_OWN_STRLEN, VERIF_OWN_STRCMP, VERIF_OWN_STRDUP, VERIF_OWN_STRCHR
 src: conf.c
 tier: B
-bound: input <= 5 characters over {a, $, {, }, (, )} in a block of exactly strlen+1 bytes; $a unset or empty; line-buffer limit CONFIG_BUFF scaled to 32 bytes (stated re-binding)
+bound: input <= 6 characters over {a, backslash, '} ending in a backslash, in a block of exactly strlen+1 bytes; line-buffer limit CONFIG_BUFF scaled to 32 bytes (stated re-binding)
+unwind: 8
+flags: --unwindset strlen.0:10,strcpy.0:10,vb_a.0:10,spiftool_safe_strncpy.0:12,mk_str.0:6,strncasecmp.0:3,spifconf_shell_expand:0,spifconf_shell_expand.7:2,spifconf_shell_expand.10:1,spifconf_shell_expand.15:1,spifconf_shell_expand.21:1,spifconf_shell_expand.22:1,spifconf_shell_expand.23:1,spifconf_shell_expand.28:7
+objbits: 10
+backend: sat
+timeout: 600
+quick: yes
+funcs: spifconf_shell_expand
+*/
+/*@unit
+name: reads_dollar_ok
+define: U_READS, VB_NOGROW, A_DOLLAR, A_BRACE, A_PAREN, D_FLAGS=(RF_LONEDOLLAR|RF_EMPTYNAME), NMAX=5, BUFF=32, VERIF_EXACT_LIBC, VERIF_OWN_STRLEN, VERIF_OWN_STRCMP, VERIF_OWN_STRDUP, VERIF_OWN_STRCHR
+src: conf.c
+tier: B
+bound: input <= 5 characters over {a, $, {, }, (, )} with every ${ and $( closed, in a block of exactly strlen+1 bytes; $a unset or empty; line-buffer limit CONFIG_BUFF scaled to 32 bytes (stated re-binding)
 unwind: 7
 flags: --unwindset strlen.0:10,strcpy.0:10,vb_a.0:10,spiftool_safe_strncpy.0:12,mk_str.0:6,strncasecmp.0:3,spifconf_shell_expand:0,spifconf_shell_expand.7:2,spifconf_shell_expand.10:1,spifconf_shell_expand.15:1,spifconf_shell_expand.21:5,spifconf_shell_expand.22:5,spifconf_shell_expand.23:5,spifconf_shell_expand.28:6
 objbits: 10
@@ -237,11 +237,26 @@ mem: 12
 funcs: spifconf_shell_expand
 */
 /*@unit
-name: reads_percent
-define: U_READS, VB_NOGROW, A_SPACE, A_PCT, A_PAREN, NMAX=5, BUFF=32, VERIF_EXACT_LIBC, VERIF_OWN_STRLEN, VERIF_OWN_STRCMP, VERIF_OWN_STRDUP, VERIF_OWN_STRCHR
+name: reads_dollar_unterminated
+define: U_READS, VB_NOGROW, A_DOLLAR, A_BRACE, A_PAREN, D_FLAGS=(RF_UNTERM|RF_LONEDOLLAR|RF_EMPTYNAME), D_NEED=RF_UNTERM, NMAX=5, BUFF=32, VERIF_EXACT_LIBC, VERIF_OWN_STRLEN, VERIF_OWN_STRCMP, VERIF_OWN_STRDUP, VERIF_OWN_STRCHR
 src: conf.c
 tier: B
-bound: input <= 5 characters over {a, space, %, (, )} in a block of exactly strlen+1 bytes; the built-in returns NULL or ""; line-buffer limit CONFIG_BUFF scaled to 32 bytes (stated re-binding)
+bound: input <= 5 characters over {a, $, {, }, (, )} with an unclosed ${ or $(, in a block of exactly strlen+1 bytes; line-buffer limit CONFIG_BUFF scaled to 32 bytes (stated re-binding)
+unwind: 7
+flags: --unwindset strlen.0:10,strcpy.0:10,vb_a.0:10,spiftool_safe_strncpy.0:12,mk_str.0:6,strncasecmp.0:3,spifconf_shell_expand:0,spifconf_shell_expand.7:2,spifconf_shell_expand.10:1,spifconf_shell_expand.15:1,spifconf_shell_expand.21:5,spifconf_shell_expand.22:5,spifconf_shell_expand.23:5,spifconf_shell_expand.28:6
+objbits: 10
+backend: sat
+timeout: 600
+quick: yes
+mem: 12
+funcs: spifconf_shell_expand
+*/
+/*@unit
+name: reads_percent_ok
+define: U_READS, VB_NOGROW, A_SPACE, A_PCT, A_PAREN, D_FLAGS=0u, NMAX=5, BUFF=32, VERIF_EXACT_LIBC, VERIF_OWN_STRLEN, VERIF_OWN_STRCMP, VERIF_OWN_STRDUP, VERIF_OWN_STRCHR
+src: conf.c
+tier: B
+bound: input <= 5 characters over {a, space, %, (, )}, every % a balanced call, in a block of exactly strlen+1 bytes; the built-in returns NULL or ""; line-buffer limit CONFIG_BUFF scaled to 32 bytes (stated re-binding)
 unwind: 7
 flags: --unwindset strlen.0:10,strcpy.0:10,vb_a.0:10,spiftool_safe_strncpy.0:12,mk_str.0:6,strncasecmp.0:3,spifconf_shell_expand:1,spifconf_shell_expand.7:2,spifconf_shell_expand.10:5,spifconf_shell_expand.15:1,spifconf_shell_expand.21:1,spifconf_shell_expand.22:1,spifconf_shell_expand.23:1,spifconf_shell_expand.28:6
 objbits: 10
@@ -249,6 +264,50 @@ backend: sat
 timeout: 900
 quick: yes
 mem: 12
+funcs: spifconf_shell_expand
+*/
+/*@unit
+name: reads_percent_lone
+define: U_READS, VB_NOGROW, A_SPACE, A_PCT, A_PAREN, D_FLAGS=RF_LONEPCT, D_NEED=RF_LONEPCT, NMAX=5, BUFF=32, VERIF_EXACT_LIBC, VERIF_OWN_STRLEN, VERIF_OWN_STRCMP, VERIF_OWN_STRDUP, VERIF_OWN_STRCHR
+src: conf.c
+tier: B
+bound: input <= 5 characters over {a, space, %, (, )} with a % that starts no call, in a block of exactly strlen+1 bytes; line-buffer limit CONFIG_BUFF scaled to 32 bytes (stated re-binding)
+unwind: 7
+flags: --unwindset strlen.0:10,strcpy.0:10,vb_a.0:10,spiftool_safe_strncpy.0:12,mk_str.0:6,strncasecmp.0:3,spifconf_shell_expand:1,spifconf_shell_expand.7:2,spifconf_shell_expand.10:5,spifconf_shell_expand.15:1,spifconf_shell_expand.21:1,spifconf_shell_expand.22:1,spifconf_shell_expand.23:1,spifconf_shell_expand.28:6
+objbits: 10
+backend: sat
+timeout: 900
+quick: yes
+mem: 12
+funcs: spifconf_shell_expand
+*/
+/*@unit
+name: reads_percent_open
+define: U_READS, VB_NOGROW, A_SPACE, A_PCT, A_PAREN, D_FLAGS=RF_MISMATCH, D_NEED=RF_MISMATCH, NMAX=5, BUFF=32, VERIF_EXACT_LIBC, VERIF_OWN_STRLEN, VERIF_OWN_STRCMP, VERIF_OWN_STRDUP, VERIF_OWN_STRCHR
+src: conf.c
+tier: B
+bound: input <= 5 characters over {a, space, %, (, )} with an unclosed %a(, in a block of exactly strlen+1 bytes; line-buffer limit CONFIG_BUFF scaled to 32 bytes (stated re-binding)
+unwind: 7
+flags: --unwindset strlen.0:10,strcpy.0:10,vb_a.0:10,spiftool_safe_strncpy.0:12,mk_str.0:6,strncasecmp.0:3,spifconf_shell_expand:1,spifconf_shell_expand.7:2,spifconf_shell_expand.10:5,spifconf_shell_expand.15:1,spifconf_shell_expand.21:1,spifconf_shell_expand.22:1,spifconf_shell_expand.23:1,spifconf_shell_expand.28:6
+objbits: 10
+backend: sat
+timeout: 900
+quick: yes
+mem: 12
+funcs: spifconf_shell_expand
+*/
+/*@unit
+name: reads_backquote
+define: U_READS, VB_NOGROW, A_BQ, NMAX=4, BUFF=32, VERIF_EXACT_LIBC, VERIF_OWN_STRLEN, VERIF_OWN_STRCMP, VERIF_OWN_STRDUP, VERIF_OWN_STRCHR
+src: conf.c
+tier: B
+bound: input <= 4 characters over {a, back-quote} in a block of exactly strlen+1 bytes; builtin_exec cannot create its temporary file and returns NULL; line-buffer limit CONFIG_BUFF scaled to 32 bytes (stated re-binding)
+unwind: 6
+flags: --unwindset strlen.0:10,strcpy.0:10,vb_a.0:10,spiftool_safe_strncpy.0:12,mk_str.0:6,strncasecmp.0:3,spifconf_shell_expand:1,spifconf_shell_expand.7:2,spifconf_shell_expand.10:1,spifconf_shell_expand.15:5,spifconf_shell_expand.21:1,spifconf_shell_expand.22:1,spifconf_shell_expand.23:1,spifconf_shell_expand.28:5,strcat.0:4
+objbits: 10
+backend: sat
+timeout: 600
+quick: yes
 funcs: spifconf_shell_expand
 */
 /*@unit
@@ -537,6 +596,9 @@ static char pick_char(void)
 #ifdef A_SQ
     if (nondet_bool()) c = '\'';
 #endif
+#ifdef A_BQ
+    if (nondet_bool()) c = '`';
+#endif
 #ifdef A_DQ
     if (nondet_bool()) c = '"';
 #endif
@@ -667,6 +729,17 @@ void harness(void)
     vb_home = nondet_bool() ? (char *) 0 : mk_str("");
     vb_env_a = nondet_bool() ? (char *) 0 : mk_str("");
     setup_builtins();
+#ifdef D_FLAGS
+    {   /* the unit's behaviour, selected through the flags the reference expansion raises for the input */
+        char ref[R_OUTMAX];
+        ref_flags = 0;
+        (void) ref_expand(w_in, w_len, ref, 2);
+        __CPROVER_assume((ref_flags & ~(D_FLAGS)) == 0);
+# ifdef D_NEED
+        __CPROVER_assume((ref_flags & (D_NEED)) != 0);
+# endif
+    }
+#endif
     buf = malloc(w_len + 1);
     for (i = 0; i <= w_len; i++) buf[i] = w_in[i];
     r = spifconf_shell_expand(buf);
